@@ -40,6 +40,16 @@
 (* old behaviours and KeyOT / KeyDst weaken the in-flight key, to show     *)
 (* that the operators do tell (Ask_*_bug*.cfg must FAIL).                  *)
 (*                                                                         *)
+(* Requests ARRIVE at the destination before anybody serves them: in hub   *)
+(* mode the asker is parked in the Deliver select, in stream and mbapp     *)
+(* mode the request is handed to AskHub.Deliver by a connection / receive  *)
+(* worker and waits there ("pend") until a ServeAsk call takes it (Serve), *)
+(* so any number of asks can be committed at a destination while no        *)
+(* ServeAsk call is active.  The handler record keeps WHICH payload the    *)
+(* handler was handed (req): the code hands each waiting request its own   *)
+(* bytes; BugReqAlias models a waiting request that is only a reference    *)
+(* into a receive buffer which the next arrival overwrites.                *)
+(*                                                                         *)
 (* Response sizes are classes relative to the buffer the ASKER passed      *)
 (* (the request carries that length): the handler returns                  *)
 (*    "neg" (n < 0), "zero" (0), "small", "exact" (= len(resp)),           *)
@@ -61,6 +71,7 @@ CONSTANTS
   BugTrunc,            \* F09/F10  copy(resp, reply) without a length check
   BugOkOnHubErr,       \* F11  sshswarm Conn.loop replies (true, "") when askHub.Deliver fails
   BugNegOk,            \* a negative handler result is not mapped to an error
+  BugReqAlias,         \* a request waiting for ServeAsk aliases a receive buffer: the next arrival overwrites it
   KeyOT, KeyDst        \* mbapp in-flight key contains originTime / destination (TRUE, TRUE = the code)
 
 ASSUME Mode \in {"hub", "stream", "mbapp"}
@@ -80,7 +91,7 @@ vars == <<ask, hnd, srv, net, infl, coll, used, now>>
 
 Idle == [pc |-> "idle", a |-> "-", s |-> "-", ctx |-> FALSE, late |-> FALSE, ctr |-> 0, ot |-> 0,
          res |-> "-", n |-> "-", got |-> 0]
-NoH  == [st |-> "none", src |-> "-", n |-> "-"]
+NoH  == [st |-> "none", src |-> "-", req |-> 0, n |-> "-"]
 
 Init ==
   /\ ask = [k \in K |-> Idle]
@@ -115,7 +126,19 @@ RetAnswer(k, hn, rid) ==
   ELSE IF hn = "over" THEN (IF BugTrunc THEN Ret(k, "ok", "exact", rid) ELSE Ret(k, "err", "-", 0))
   ELSE Ret(k, "ok", hn, rid)
 
-Enter(k) == hnd' = [hnd EXCEPT ![k] = [st |-> "in", src |-> ask[k].a, n |-> "-"]]
+\* hub mode: the ServeAsk caller takes the request straight from the parked asker
+Enter(k) == hnd' = [hnd EXCEPT ![k] = [st |-> "in", src |-> ask[k].a, req |-> k, n |-> "-"]]
+\* stream / mbapp: the request is handed to AskHub.Deliver and waits for a ServeAsk call
+Pend(k) ==
+  hnd' = [j \in K |->
+            IF j = k THEN [st |-> "pend", src |-> ask[k].a, req |-> k, n |-> "-"]
+            ELSE IF BugReqAlias /\ hnd[j].st = "pend" /\ ask[j].s = ask[k].s
+                 THEN [hnd[j] EXCEPT !.req = k]          \* the waiting request now reads as the newcomer
+                 ELSE hnd[j]]
+\* hubs.go:129 case req := <-q.reqs: a ServeAsk call takes a waiting request
+Serve(k) ==
+  /\ hnd[k].st = "pend" /\ srv[ask[k].s] = "open" /\ ~Busy(ask[k].s)
+  /\ hnd' = [hnd EXCEPT ![k].st = "in"]
 
 ----------------------------------------------------------------------------
 (* the environment: contexts and Close (CloseDst at any step) *)
@@ -168,7 +191,7 @@ HMeet(k) ==
 HHandlerRet(k, c) ==
   /\ Mode = "hub" /\ hnd[k].st = "in" /\ ask[k].pc = "wait"
   /\ hnd' = [hnd EXCEPT ![k].st = "done", ![k].n = HN(c)]
-  /\ RetAnswer(k, HN(c), k)
+  /\ RetAnswer(k, HN(c), hnd[k].req)
   /\ UNCHANGED <<srv, net, infl, coll, used, now>>
 
 ----------------------------------------------------------------------------
@@ -186,9 +209,22 @@ SArrive(k) ==
         /\ IF BugOkOnHubErr THEN Ret(k, "ok", "zero", 0)  \* F11: req.Reply(true, resp[:0])
            ELSE Ret(k, "err", "-", 0)                     \* Reply(false) / stream torn down
         /\ UNCHANGED hnd
-     \/ /\ srv[ask[k].s] = "open" /\ ~Busy(ask[k].s)
+     \/ /\ srv[ask[k].s] = "open"
         /\ ask' = [ask EXCEPT ![k].pc = "wait"]
-        /\ Enter(k)
+        /\ Pend(k)
+  /\ UNCHANGED <<srv, net, infl, coll, used, now>>
+
+\* a ServeAsk call takes the waiting request
+SServe(k) ==
+  /\ Mode = "stream" /\ Serve(k)
+  /\ UNCHANGED <<ask, srv, net, infl, coll, used, now>>
+
+\* the hub is closed while the request waits: Deliver returns q.err
+SPendClosed(k) ==
+  /\ Mode = "stream" /\ hnd[k].st = "pend" /\ HubClosed(ask[k].s)
+  /\ hnd' = [hnd EXCEPT ![k].st = "none"]
+  /\ IF ask[k].pc # "wait" THEN UNCHANGED ask
+     ELSE IF BugOkOnHubErr THEN Ret(k, "ok", "zero", 0) ELSE Ret(k, "err", "-", 0)
   /\ UNCHANGED <<srv, net, infl, coll, used, now>>
 
 \* no connection / the connection dies because the destination closed (dial error, session closed)
@@ -207,7 +243,7 @@ SCtx(k) ==
 SHandlerRet(k, c) ==
   /\ Mode = "stream" /\ hnd[k].st = "in"
   /\ hnd' = [hnd EXCEPT ![k].st = "done", ![k].n = HN(c)]
-  /\ IF ask[k].pc = "wait" THEN RetAnswer(k, HN(c), k) ELSE UNCHANGED ask
+  /\ IF ask[k].pc = "wait" THEN RetAnswer(k, HN(c), hnd[k].req) ELSE UNCHANGED ask
   /\ UNCHANGED <<srv, net, infl, coll, used, now>>
 
 ----------------------------------------------------------------------------
@@ -234,12 +270,23 @@ MCall(k, a, s, c) ==
   /\ UNCHANGED <<hnd, srv, coll, now>>
 
 \* the request datagram is delivered (requests are not duplicated: one handler invocation per request);
-\* swarm.go:214-224 handleAskRequest -> asks.Deliver: a closed hub or a closed inner swarm drops it
+\* swarm.go:214-224 handleAskRequest -> asks.Deliver: a closed hub or a closed inner swarm drops it,
+\* otherwise it waits in the hub for a ServeAsk call
 MReqDeliver(k) ==
   /\ Mode = "mbapp" /\ [t |-> "req", k |-> k, p |-> 1] \in net
   /\ net' = net \ {[t |-> "req", k |-> k, p |-> 1]}
-  /\ IF srv[ask[k].s] = "open" /\ ~Busy(ask[k].s) THEN Enter(k) ELSE UNCHANGED hnd
+  /\ IF srv[ask[k].s] = "open" THEN Pend(k) ELSE UNCHANGED hnd
   /\ UNCHANGED <<ask, srv, infl, coll, used, now>>
+
+MServe(k) ==
+  /\ Mode = "mbapp" /\ Serve(k)
+  /\ UNCHANGED <<ask, srv, net, infl, coll, used, now>>
+
+\* the hub is closed while the request waits: Deliver returns the error, nothing is sent back
+MPendClosed(k) ==
+  /\ Mode = "mbapp" /\ hnd[k].st = "pend" /\ HubClosed(ask[k].s)
+  /\ hnd' = [hnd EXCEPT ![k].st = "none"]
+  /\ UNCHANGED <<ask, srv, net, infl, coll, used, now>>
 
 \* swarm.go:225-234: the handler returned n; reply (errCode, respBuf[:n]) sent as NParts fragments
 \* through the inner swarm, which refuses when it is closed
@@ -271,7 +318,7 @@ MRepDeliver(k2, p) ==
                 ELSE LET e == CHOOSE x \in match : TRUE   \* a map: at most one entry per key
                          k1 == e.k
                      IN /\ infl' = [infl EXCEPT ![a] = {x \in @ : x # e /\ ~SameKey(x, Key(k1))}]
-                        /\ IF ask[k1].pc = "wait" THEN RetAnswer(k1, hnd[k2].n, k2) ELSE UNCHANGED ask
+                        /\ IF ask[k1].pc = "wait" THEN RetAnswer(k1, hnd[k2].n, hnd[k2].req) ELSE UNCHANGED ask
   /\ UNCHANGED <<hnd, srv, net, used, now>>
 
 \* asker.go:21-28 await: case <-ctx.Done(): abort ; swarm.go:80 deferred removeAsk
@@ -295,13 +342,15 @@ Env == \/ \E k \in K : Timeout(k)
 
 HandlerRet(k, c) == HHandlerRet(k, c) \/ SHandlerRet(k, c) \/ MHandlerRet(k, c)
 \* the steps of ask k that the code takes by itself
-AskStep(k) == \/ HSelClosed(k) \/ HSelCtx(k) \/ HMeet(k)
-              \/ SArrive(k) \/ SAbort(k) \/ SCtx(k)
-              \/ MCtx(k)
+AskStep(k) == \/ HSelClosed(k) \/ HSelCtx(k)
+              \/ SArrive(k) \/ SAbort(k) \/ SCtx(k) \/ SPendClosed(k)
+              \/ MCtx(k) \/ MPendClosed(k)
+\* the destination's application calls ServeAsk and is handed a waiting request
+ServeStart(k) == HMeet(k) \/ SServe(k) \/ MServe(k)
 Network == \E k \in K : MReqDeliver(k) \/ \E p \in 1..2 : MRepDeliver(k, p)
 
 Next == \/ Env
-        \/ \E k \in K : AskStep(k)
+        \/ \E k \in K : AskStep(k) \/ ServeStart(k)
         \/ \E k \in K, c \in Classes : HandlerRet(k, c)
         \/ Network
 
@@ -320,7 +369,8 @@ TypeOK ==
                   /\ ask[k].res \in {"-", "ok", "err"}
                   /\ ask[k].n \in {"-", "zero", "small", "exact", "over"}
                   /\ ask[k].got \in K \cup {0}
-                  /\ hnd[k].st \in {"none", "in", "done"}
+                  /\ hnd[k].st \in {"none", "pend", "in", "done"}
+                  /\ hnd[k].req \in K \cup {0}
   /\ \A s \in Servers : srv[s] \in {"open", "closing", "closed"}
 
 Ok(k) == Returned(k) /\ ask[k].res = "ok"
@@ -331,7 +381,7 @@ OwnAnswer ==
   \A k \in K : Ok(k) =>
      /\ ask[k].got = k
      /\ hnd[k].st = "done" /\ hnd[k].n = ask[k].n
-     /\ hnd[k].src = ask[k].a
+     /\ hnd[k].src = ask[k].a /\ hnd[k].req = k
 
 \* a failure is never reported as a success: negative handler result, destination closed before the
 \* call, response longer than the buffer
